@@ -18,8 +18,8 @@ from . import tlc as tlcmod
 from .tlc import MachineryError, TLCResult
 
 VERIF = os.path.dirname(os.path.dirname(os.path.abspath(__file__)))
-EVIDENCE_DIR = os.path.join(VERIF, "evidence")
-REPLAY_DIR = os.path.join(VERIF, "replays")
+EVIDENCE_DIR = os.environ.get("VERIF_EVIDENCE_DIR") or os.path.join(VERIF, "evidence")
+REPLAY_DIR = os.environ.get("VERIF_REPLAY_DIR") or os.path.join(VERIF, "replays")
 FINDINGS = os.path.join(VERIF, "known_findings.json")
 
 
@@ -199,8 +199,9 @@ def write_replay(ctx: Ctx, v: Violation) -> str:
 def assert_repo_import() -> None:
     import aiohttp  # noqa: WPS433
 
-    if not aiohttp.__file__.startswith("/repo/"):
-        raise MachineryError(f"aiohttp imported from {aiohttp.__file__}, expected /repo")
+    root = os.environ.get("VERIF_REPO", "/repo").rstrip("/") + "/"
+    if not aiohttp.__file__.startswith(root):
+        raise MachineryError(f"aiohttp imported from {aiohttp.__file__}, expected {root}")
 
 
 def main(argv: Optional[List[str]] = None) -> int:
